@@ -86,6 +86,30 @@ type SavedCase struct {
 	Error    string          `json:"error,omitempty"`
 	Note     string          `json:"note,omitempty"`
 	Case     json.RawMessage `json:"case"`
+	// Preceding holds the (small) cases this process evaluated just before the failing one, oldest
+	// first: Replay runs them first, so that a failure that needs an earlier call (state kept between
+	// calls by the code under test) still reproduces from the file.
+	Preceding []json.RawMessage `json:"preceding,omitempty"`
+}
+
+// recent is the ring of the last cases evaluated by this process (rapid sub-checks only).
+var recent struct {
+	mu    sync.Mutex
+	cases [][]byte
+}
+
+const recentKeep, recentMaxBytes = 6, 48 << 10
+
+func remember(raw []byte) {
+	if len(raw) > recentMaxBytes {
+		return
+	}
+	recent.mu.Lock()
+	recent.cases = append(recent.cases, raw)
+	if len(recent.cases) > recentKeep+1 {
+		recent.cases = recent.cases[1:]
+	}
+	recent.mu.Unlock()
 }
 
 // ---------------------------------------------------------------------------------
@@ -249,13 +273,14 @@ func observe[C any](r *recorder, s *Sub[C], c C, hashed bool) {
 	for _, l := range labels {
 		r.labels[l]++
 	}
-	if nt {
-		if hashed {
-			h, _ := hashCase(c)
+	if hashed {
+		h, raw := hashCase(c)
+		remember(raw)
+		if nt {
 			r.hashes[h] = struct{}{}
-		} else {
-			r.nontrivial++
 		}
+	} else if nt {
+		r.nontrivial++
 	}
 	// samples: the first two, then sparser and sparser (bounded at 6), preferring non-trivial ones.
 	if len(r.samples) < 6 && (nt || r.evaluations <= 2) && r.evaluations%r.sampleEvery == 0 {
@@ -374,7 +399,16 @@ func writeCase[C any](path, sub string, c C, errText string) {
 	if len(errText) > 4000 {
 		errText = errText[:4000] + "…"
 	}
-	b, _ := json.MarshalIndent(SavedCase{Property: os.Getenv("VERIF_PROPERTY"), Sub: sub, Error: errText, Case: raw}, "", " ")
+	sc := SavedCase{Property: os.Getenv("VERIF_PROPERTY"), Sub: sub, Error: errText, Case: raw}
+	recent.mu.Lock()
+	for i, p := range recent.cases {
+		if i == len(recent.cases)-1 && bytes.Equal(p, raw) {
+			break // the case itself
+		}
+		sc.Preceding = append(sc.Preceding, json.RawMessage(p))
+	}
+	recent.mu.Unlock()
+	b, _ := json.MarshalIndent(sc, "", " ")
 	_ = os.WriteFile(path, b, 0o644)
 }
 
@@ -524,6 +558,9 @@ func Replay(t *testing.T) {
 	if !ok {
 		fmt.Printf("VERIF-HARNESS-ERROR unknown sub-check %q in %s\n", sc.Sub, path)
 		t.Fatalf("unknown sub-check %q", sc.Sub)
+	}
+	for _, p := range sc.Preceding { // earlier calls of the failing process; their own outcome is not judged here
+		_ = rp.run(p)
 	}
 	if err := rp.run(sc.Case); err != nil {
 		if isHarness(err) {
